@@ -117,6 +117,8 @@ pub fn decorated_obscured() -> Vec<M> {
     for k in [Kind::Elided, Kind::Encrypted, Kind::Compressed] {
         let inner = a("dp", "do");
         let dec = M::Node(Box::new(M::Obscured(k, inner.digest(), Some(Box::new(inner.clone())))), vec![a("dq", "dr")]);
+        // the whole assertion obscured in its slot (under each kind), next to a plain one
+        out.push(M::Node(Box::new(t("ds")), vec![M::Obscured(k, inner.digest(), Some(Box::new(inner.clone()))), a("dk", "dw")]));
         out.push(M::Node(Box::new(t("ds")), vec![dec.clone()]));
         out.push(M::Node(Box::new(t("ds")), vec![dec.clone(), a("dk", "dw")]));
         out.push(M::Node(Box::new(M::Wrapped(Box::new(M::Node(Box::new(t("ds")), vec![dec.clone()])))), vec![a("dk", "dw")]));
